@@ -168,6 +168,16 @@ struct C12 : Scenario {
 		else if (kind == 4) m = gen_dir(rng, o.level, gen_name(rng, 6) + "/", o);
 		else m = gen_symlink(rng, o.level, dir, gen_name(rng, 5), rng.chance(1, 2) ? "../" + gen_name(rng, 4) : gen_name(rng, 6), o);
 		if (m.os == 'K' && m.level == 2) m.os = 'U';
+		if (m.level >= 1 && rng.chance(1, 4)) {
+			// further known header types anywhere in the chain (OS-9, Windows time stamps, user/group names): decoding one
+			// must not disturb what another one established
+			static const uint8_t types[] = {0xcc, 0x41, 0x52, 0x53, 0xcc};
+			ExtHdr e;
+			e.type = types[rng.below(5)];
+			size_t n = e.type == 0xcc ? 12 + rng.below(6) : e.type == 0x41 ? 24 : 1 + rng.below(8);
+			for (size_t i = 0; i < n; ++i) e.data.push_back(rng.byte());
+			m.ext.insert(m.ext.begin() + (long) rng.below(m.ext.size() + 1), e);
+		}
 		p.members.push_back(m);
 		if (rng.chance(1, 2)) {
 			Member tail = gen_file(rng, (int) rng.below(4), "", gen_name(rng, 5), o);
